@@ -1,17 +1,17 @@
 SPECIFICATION SpecApi
 CONSTANTS
   Threads = {"t1"}
-  Funcs = {"f1", "f2"}
-  FuncSeq <- MCFuncSeq
-  Fakes = {"k1", "k2"}
-  Sites = {1, 2}
+  Funcs = {"f1"}
+  FuncSeq <- MCFuncSeq1
+  Fakes = {"k1"}
+  Sites = {1}
   SlotLen = 4
   MaxPatch = 3
   PatchSizes = {2}
   Split <- MCSplit
   MaxTramps = 4
-  NVals <- MCNValsT
-  BoolSet = {"true", "false"}
+  NVals <- MCNValsC
+  BoolSet = {"true"}
   GuardKinds = {"inj"}
   MatchVals = {TRUE}
   DropOrder = "reverse"
@@ -23,13 +23,13 @@ CONSTANTS
   FlushEntry = TRUE
   UnmapOnDrop = TRUE
   Linear = TRUE
-  UserCalls = FALSE
-  MaxUserCalls = 0
-  InstallKinds = {"jump", "bool"}
-  Faults = {"mmap", "mprotect"}
-  MaxLives = 1
-  Gates = {"ok", "sig", "bool", "null"}
-  MaxInstalls = 3
+  UserCalls = TRUE
+  MaxUserCalls = 3
+  InstallKinds = {"jump"}
+  Faults = {}
+  MaxLives = 3
+  Gates = {"ok"}
+  MaxInstalls = 1
 CONSTRAINT CanonDrop
 INVARIANT Emit
 CHECK_DEADLOCK FALSE
